@@ -24,7 +24,7 @@ RULE = (
     "Hypothesis-generated pairs of expression trees (depth<=4; operators * / **n root) over all "
     "registered units, 3 freshly defined base units, One and all registered prefixes; separate "
     "tree families over dimensions and over same-base prefixes; 50% of pairs are law-rewritings "
-    "of one another. Non-trivial: >=3 operators and a normal form other than the identity; "
+    "of one another; a third of the unit pairs are preceded by read-only uses (as_ratio, format, str, repr, hash, quantify, deepcopy) of relatives of their sub-expressions (inverse, prefixed inverse, prefixed copy, power). Non-trivial: >=3 operators and a normal form other than the identity; "
     "distinct = distinct (family, normal form)."
 )
 ASSUMPTIONS = [
@@ -39,6 +39,7 @@ PREFIX_NAMES = []
 DIM_LEAVES = []
 PFX10 = []
 PFX2 = []
+PLAIN_UNIT_NAMES = []
 
 
 def setup(tier):
@@ -52,6 +53,7 @@ def setup(tier):
         u = m.Unit.define(dim, name, name.replace(" ", "-"))
         SNAP.register_base(u)
     UNIT_NAMES = sorted(SNAP.units)
+    PLAIN_UNIT_NAMES[:] = [n for n in UNIT_NAMES if not SNAP.structure[n][1]]
     PREFIX_NAMES = sorted(n for n in SNAP.prefixes if n)
     PFX10 = sorted(n for n, p in SNAP.prefixes.items() if n and p.base == 10)
     PFX2 = sorted(n for n, p in SNAP.prefixes.items() if n and p.base == 2)
@@ -113,7 +115,10 @@ EXPS = st.sampled_from([-4, -3, -2, -1, 0, 1, 2, 2, 3, 4])
 NZ = st.sampled_from([-3, -2, -1, 2, 3, 4])
 # exponents that take a prefix's scale out of the range of a float (10**-336, 2**1200 ...): prefix
 # arithmetic is arithmetic on exponents and must not care
-BIG = st.sampled_from([-40, -25, -14, -13, 13, 14, 25, 40])
+BIG = st.sampled_from([-40, -25, -14, -13, -10, -5, 5, 10, 13, 14, 25, 40])
+# exponents beyond 2**53, where a float no longer holds every integer: exponent arithmetic is
+# integer arithmetic and (x**(h*n)).root(n) is x**h all the same
+HUGE = st.sampled_from([2**53 + 1, -(2**53 + 1), 2**53 + 3, 3 * 2**52 + 1, 2**64 + 3, -(2**61) - 1])
 
 
 def _leaf(kind):
@@ -149,6 +154,9 @@ def _tree(kind, depth):
         st.builds(lambda a, b, n: ["r", ["/", ["^", a, n], ["^", b, n]], n], _leaf(kind), _leaf(kind), NZ),
     ]
     ops.append(st.builds(lambda a, n: ["^", a, n], _leaf(kind), BIG))
+    # (on units: only leaves without any prefix, so that nothing ever has to compute 10**(2**53))
+    huge_leaf = _leaf(kind) if kind != "unit" else st.builds(lambda n: ["u", n], st.sampled_from(PLAIN_UNIT_NAMES))
+    ops.append(st.builds(lambda a, h, n: ["r", ["^", a, h * n], n], huge_leaf, HUGE, NZ))
     if kind == "unit":
         ops.append(st.builds(lambda p, a: ["p", p, a], st.sampled_from(PFX10), sub))
         # prefixes of the two bases meeting, one side at an extreme scale, in both orders
@@ -234,7 +242,84 @@ def _pair(draw, kind):
     else:
         b = draw(_tree(kind, draw(st.integers(0, 3))))
         rel = "independent"
-    return {"k": kind, "rel": rel, "a": a, "b": b}
+    case = {"k": kind, "rel": rel, "a": a, "b": b}
+    if kind == "unit" and draw(st.integers(0, 2)) == 0:
+        case["pre"] = draw(_observations(a, b))
+    return case
+
+
+def _has_huge(t):
+    if t[0] in "^r":
+        return abs(t[2]) > 1000 or _has_huge(t[1])
+    return any(_has_huge(x) for x in t[1:] if isinstance(x, list))
+
+
+def _subtrees(t, acc, divisor=False):
+    op = t[0]
+    if _has_huge(t):
+        return acc
+    if op in ("*", "/", "^", "r", "p"):
+        acc.append((t, divisor))
+    if op in "*/":
+        _subtrees(t[1], acc)
+        _subtrees(t[2], acc, op == "/")
+    elif op in "^r":
+        _subtrees(t[1], acc)
+    elif op == "p":
+        _subtrees(t[2], acc)
+    elif divisor:
+        acc.append((t, True))
+    return acc
+
+
+OBSERVATIONS = ["as_ratio", "format/", "str", "repr", "hash", "quantify", "mathml", "copy"]
+
+
+@st.composite
+def _observations(draw, a, b):
+    """Read-only uses of relatives of the pair's sub-expressions (their inverse, a prefixed
+    copy, a power), made *before* the pair is evaluated: rendering, splitting into a ratio,
+    hashing, quantifying.  None of them may change what any later expression evaluates to."""
+    subs = _subtrees(a, []) + _subtrees(b, [])
+    if not subs:
+        subs = [(a, False)]
+    divisors = [s for s in subs if s[1]] or subs
+    pre = []
+    for _ in range(draw(st.integers(1, 3))):
+        s, _d = draw(st.sampled_from(divisors if draw(st.booleans()) else subs))
+        shape = draw(st.integers(0, 4))
+        if shape == 0:
+            t = ["p", draw(st.sampled_from(PFX10)), ["^", s, -1]]
+        elif shape == 1:
+            t = ["^", s, -1]
+        elif shape == 2:
+            t = ["p", draw(st.sampled_from(PREFIX_NAMES)), s]
+        elif shape == 3:
+            t = ["^", s, draw(NZ)]
+        else:
+            t = ["*", ["p", draw(st.sampled_from(PFX10)), ["one"]], ["^", s, draw(st.sampled_from([-2, -1]))]]
+        pre.append([t, draw(st.sampled_from(OBSERVATIONS))])
+    return pre
+
+
+def _observe(obj, how):
+    import copy as _copy
+    if how == "as_ratio":
+        obj.as_ratio()
+    elif how == "format/":
+        format(obj, "/")
+    elif how == "str":
+        str(obj)
+    elif how == "repr":
+        repr(obj)
+    elif how == "hash":
+        hash(obj)
+    elif how == "quantify":
+        obj.quantify()
+    elif how == "mathml":
+        obj._repr_html_()
+    elif how == "copy":
+        _copy.deepcopy(obj)
 
 
 @st.composite
@@ -252,8 +337,30 @@ def _pair_extreme(draw):
     return {"k": "unit", "rel": "rewrite", "a": a, "b": draw(_rewrite("unit", a))}
 
 
+@st.composite
+def _pair_observed(draw):
+    """x / d (or x * d) for a product d of positive powers that is probably new to the process,
+    evaluated only after a prefixed relative of d (p*d**-1, p*d, d**-1, p*One*d**-k) has been
+    rendered, split into a ratio, hashed ...: a read-only use of one unit must not change what
+    an expression over its factors evaluates to."""
+    plain = st.builds(lambda n: ["u", n], st.sampled_from(UNIT_NAMES))
+    leaves = [draw(st.one_of(plain, plain, _leaf("unit"))) for _ in range(draw(st.integers(1, 3)))]
+    d = None
+    for leaf in leaves:
+        n = draw(st.sampled_from([1, 1, 2, 3, 4]))
+        f = leaf if n == 1 else ["^", leaf, n]
+        d = f if d is None else ["*", d, f]
+    x = draw(_tree("unit", draw(st.integers(0, 2))))
+    a = [draw(st.sampled_from("//*")), x, d]
+    pfx = draw(st.sampled_from(PFX10 + PFX2))
+    shape = draw(st.integers(0, 3))
+    rel = [["p", pfx, ["^", d, -1]], ["p", pfx, d], ["^", d, -1], ["*", ["p", pfx, ["one"]], ["^", d, -2]]][shape]
+    pre = [[rel, draw(st.sampled_from(["as_ratio", "format/", "as_ratio", "format/", "str", "mathml", "quantify", "copy"]))]]
+    return {"k": "unit", "rel": "rewrite", "a": a, "b": draw(_rewrite("unit", a)), "pre": pre}
+
+
 def strategy(tier):
-    return st.one_of(_pair("unit"), _pair("unit"), _pair("unit"), _pair("dim"), _pair("p10"), _pair("p2"), _pair_extreme())
+    return st.one_of(_pair("unit"), _pair("unit"), _pair("unit"), _pair("dim"), _pair("p10"), _pair("p2"), _pair_extreme(), _pair_observed(), _pair_observed())
 
 
 # ---------------------------------------------------------------- dimension / prefix interpreters
@@ -434,6 +541,21 @@ def run_case(case) -> core.Outcome:
     except Exception:
         out.invalid = True
         return out
+    if kind == "unit" and case.get("pre"):
+        # observations first; what they return or raise is other properties' business
+        try:
+            for t, how in case["pre"]:
+                model.count_ops(t)
+                try:
+                    _observe(SNAP.build(t), how)
+                except (KeyError, IndexError):
+                    raise
+                except Exception:  # noqa
+                    pass
+            out.classes.append("observed-first")
+        except (KeyError, ValueError, IndexError, TypeError):
+            out.invalid = True
+            return out
     try:
         ra = _eval_side(kind, a, out, "a")
         rb = _eval_side(kind, b, out, "b")
